@@ -119,7 +119,7 @@ def _replay(item):
   from ai_edge_quantizer import quantizer
   trans, seed, model_kind = item
   model0, info, data0 = make_world(seed)
-  world = {"model": bytearray(model0) if model_kind == "bytearray" else bytes(model0), "recipes": recipes(), "data": data0, "cals": []}
+  world = {"model": bytearray(model0) if model_kind == "bytearray" else bytes(model0), "recipes": recipes(), "data": data0, "cals": [], "results": []}
   snaps = copy.deepcopy(world)
   qs = {}
   problems = []
@@ -127,16 +127,24 @@ def _replay(item):
   hist = trans["hist"]
   pol = policy_files()
   quantizer.Quantizer(world["model"]).load_config_policy(pol["P0"])      # every history starts under the default policy
+  import shutil
+  folder = tempfile.mkdtemp(prefix="c14_save_")
   try:
-    return _replay_steps(trans, world, snaps, qs, problems, hist, pol)
+    return _replay_steps(trans, world, snaps, qs, problems, hist, pol, folder)
   finally:
     quantizer.Quantizer(world["model"]).load_config_policy(pol["P0"])
+    shutil.rmtree(folder, ignore_errors=True)
 
 
-def _replay_steps(trans, world, snaps, qs, problems, hist, pol):
+def _folder_state(folder):
+  return {f: open(os.path.join(folder, f), "rb").read() for f in sorted(os.listdir(folder))}
+
+
+def _replay_steps(trans, world, snaps, qs, problems, hist, pol, folder):
   from ai_edge_quantizer import quantizer
   nq = 0
   cur_pol = ["P0"]
+  kept = []        # the first MaxRes results: dict(obj, bytes, recipe, cal, pol)
   for step, act in enumerate(hist):
     kind, qi = act[0], act[1]
     if qi not in qs:
@@ -165,8 +173,11 @@ def _replay_steps(trans, world, snaps, qs, problems, hist, pol):
       elif kind == "quantize":
         cal = world["cals"][act[2] - 1] if act[2] else None
         arg_now = copy.deepcopy(cal)
-        out = bytes(q.quantize(cal).quantized_model)
+        result = q.quantize(cal)
+        out = bytes(result.quantized_model)
         nq += 1
+        if len(kept) < 2:
+          kept.append({"obj": result, "bytes": out, "recipe": copy.deepcopy(result.recipe), "cal": arg_now, "pol": cur_pol[0]})
         ref = fresh_quantize(world["model"], q.get_quantization_recipe(), arg_now, pol, cur_pol[0])
         if out != ref:
           problems.append(("history-dependence", "step %d %s: bytes differ from a fresh Quantizer given equal arguments" % (step + 1, act)))
@@ -176,6 +187,36 @@ def _replay_steps(trans, world, snaps, qs, problems, hist, pol):
             problems.append(("history-dependence", "step %d %s: bytes differ from quantizing the calibration result as it was returned" % (step + 1, act)))
       elif kind == "validate":
         q.validate()
+      elif kind == "save":
+        r, name = act[2], act[3]
+        if r > len(kept):
+          return {"problems": [("harness", "bad result index")], "nq": 0, "hist": hist}
+        before = _folder_state(folder)
+        try:
+          kept[r - 1]["obj"].save(folder, name)
+        except FileExistsError:
+          got = "raise:exists"
+          if _folder_state(folder) != before:
+            problems.append(("save", "step %d %s: a refused save() changed the folder" % (step + 1, act[:-1])))
+        if got == "ok":
+          after = _folder_state(folder)
+          k = kept[r - 1]
+          want_files = set(before) | {name + ".tflite", name + "_recipe.json"}
+          if set(after) != want_files or any(after[f] != before[f] for f in before):
+            problems.append(("save", "step %d %s: files after save %s, expected %s (others untouched)" % (step + 1, act[:-1], sorted(after), sorted(want_files))))
+          elif after[name + ".tflite"] != k["bytes"]:
+            problems.append(("save", "step %d %s: saved model differs from the bytes quantize() returned" % (step + 1, act[:-1])))
+          else:
+            saved = json.loads(after[name + "_recipe.json"].decode())
+            if saved != json.loads(json.dumps(k["recipe"])):
+              problems.append(("save", "step %d %s: saved recipe is not the recipe the result was made under" % (step + 1, act[:-1])))
+            else:
+              # C12: the recipe written next to the model reproduces that model (same calibration result, same policy)
+              again = fresh_quantize(world["model"], saved, k["cal"], pol, k["pol"])
+              if cur_pol[0] != k["pol"]:
+                quantizer.Quantizer(world["model"]).load_config_policy(pol[cur_pol[0]])
+              if again != k["bytes"]:
+                problems.append(("save", "step %d %s: the saved recipe does not reproduce the saved model" % (step + 1, act[:-1])))
     except RuntimeError as e:
       m = str(e)
       got = "raise:norecipe" if "without a quantization recipe" in m else "raise:nocal" if "QSVs) are required" in m else "raise:other:" + m[:80]
@@ -184,6 +225,11 @@ def _replay_steps(trans, world, snaps, qs, problems, hist, pol):
       got = "raise:missing" if ("not found in tensor_name_to_qsv" in m or "min and max must be provided" in m) else "raise:other:ValueError:" + m[:80]
     except Exception as e:  # pylint: disable=broad-except
       got = "raise:noresult" if kind == "validate" else "raise:other:%s:%s" % (type(e).__name__, str(e)[:80])
+    # results returned earlier are frozen snapshots: later calls change neither their bytes nor their recipe
+    for j, k in enumerate(kept):
+      if bytes(k["obj"].quantized_model) != k["bytes"] or not deep_equal(k["obj"].recipe, k["recipe"]):
+        problems.append(("result-mutated", "step %d %s modified the result returned by quantize() #%d" % (step + 1, act[:-1], j + 1)))
+        k["bytes"], k["recipe"] = bytes(k["obj"].quantized_model), copy.deepcopy(k["obj"].recipe)
     # caller-owned objects untouched after every call
     for name in ("model", "recipes", "data", "cals"):
       if not deep_equal(world[name], snaps[name]):
@@ -239,13 +285,13 @@ def main():
   q = lambda s: '"%s"' % s
   pair = lambda k: "<<%s, %s>>" % (q(k[0]), q(k[1]))
   consts = dict(NQ="2", Recipes=tlc.tla_str_set(["RA", "RB", "RC"]), Policies=tlc.tla_str_set(POLICIES), Datasets=tlc.tla_str_set(["D1", "D2"]),
-                MaxLen=str(maxlen), MaxCals="2",
+                MaxLen=str(maxlen), MaxCals="2", Names=tlc.tla_str_set(["m1"]),
                 LoadOutcome="(" + " @@ ".join("%s :> <<%s, %s>>" % (pair(k), q(v[0]), q(v[1])) for k, v in LOAD_OUTCOME.items()) + ")",
                 NeedsCal="(" + " @@ ".join("%s :> %s" % (q(r), tlc.tla_bool(v)) for r, v in NEEDS_CAL.items()) + ")",
                 WritesStats="(" + " @@ ".join("%s :> %s" % (pair(k), tlc.tla_bool(WRITES.get(k, False))) for k in STATS_OF) + ")",
                 StatsOf="(" + " @@ ".join("%s :> %s" % (pair(k), tlc.tla_str_set(v)) for k, v in STATS_OF.items()) + ")",
                 Fixes=tlc.tla_str_set(fixes))
-  r = tlc.run("C14_api", "Api", consts, invariants=["ArgsUntouched", "OutputIsFunction"], constraints=["EmitH"], view="View", workers=16, timeout=3600)
+  r = tlc.run("C14_api", "Api", consts, invariants=["ArgsUntouched", "OutputIsFunction", "SavedPairOfOneResult"], constraints=["EmitH"], view="View", workers=16, timeout=3600)
   # longer histories on ONE Quantizer under the default policy (a failed call in the middle, then by-the-book calls)
   deep = dict(consts, NQ="1", Policies=tlc.tla_str_set(["P0"]), Datasets=tlc.tla_str_set(["D1"]), MaxLen=str(maxlen + 3))
   rd = tlc.run("C14_api_deep", "Api", deep, invariants=["ArgsUntouched", "OutputIsFunction"], constraints=["EmitH"], view="View", workers=16, timeout=3600)
@@ -269,8 +315,12 @@ def main():
   after_fail = lambda h: any(a[-1].startswith("raise") for a in json.loads(h)[:-1])
   deep_keys = sorted(k for k in trans_deep if k not in trans and after_fail(k))
   keys_deep = common.sample_keep(deep_keys, 300 if args.tier == "quick" else 12000, args.seed)
+  # histories in which a result is saved (also twice under one name, and after the recipe / policy has changed since)
+  has_save = lambda h: any(a[0] == "save" for a in json.loads(h))
+  save_keys = sorted(k for k in list(trans) + list(trans_deep) if has_save(k) and k not in keys and k not in keys_deep)
+  keys_save = common.sample_keep(save_keys, 200 if args.tier == "quick" else 6000, args.seed)
   trans.update(trans_deep)
-  keys = keys + keys_deep
+  keys = keys + keys_deep + keys_save
   items = [(trans[k], args.seed, "bytes" if i % 3 else "bytearray") for i, k in enumerate(keys)]
   t0 = time.time()
   results = []
@@ -286,11 +336,12 @@ def main():
       chk.violation("%s: %s" % (kind, msg), {"property": "C14", "history": out["hist"], "clause": kind})
   nproc = fresh_process_check(chk, args.seed, args.tier)
   chk.cov.update({
-      "states": r.distinct + rd.distinct, "transitions": r.generated + rd.generated, "histories_continuing_after_a_raise": len(keys_deep), "traces_validated_against_impl": len(results), "transitions_emitted": len(trans),
+      "states": r.distinct + rd.distinct, "transitions": r.generated + rd.generated, "histories_continuing_after_a_raise": len(keys_deep), "histories_with_save": len([k for k in keys if has_save(k)]), "traces_validated_against_impl": len(results), "transitions_emitted": len(trans),
       "quantize_calls_compared_with_fresh_quantizer": nq, "fresh_process_runs": nproc, "max_history": maxlen,
       "evaluations": len(results), "distinct_nontrivial": sum(1 for o in results if o["nq"] > 0),
-      "rule": "history = sequence over {load R (3 recipes), load_config_policy (2 policies, process-global), calibrate(D, previous result), quantize(result), validate} on 2 Quantizers sharing "
-              "<= 2 calibration results; every (reachable state, action) transition emitted once by TLC; non-trivial = contains a quantize() that returns",
+      "rule": "history = sequence over {load R (3 recipes), load_config_policy (2 policies, process-global), calibrate(D, previous result), quantize(result), validate, "
+              "result.save(name)} on 2 Quantizers sharing <= 2 calibration results and <= 2 kept results (length <= max_history), and on 1 Quantizer (length <= max_history + 3); "
+              "every (reachable state incl. the outcome of the last failed call, action) transition emitted once by TLC; non-trivial = contains a quantize() that returns",
       "samples": [o["hist"] for o in results[:3]], "replay_wall_s": round(time.time() - t0, 1), "exhaustive": args.tier == "thorough",
   })
   chk.assumptions += ["deep equality of numpy arrays / dicts / bytes decides 'compare equal before and after'"]
